@@ -42,9 +42,10 @@ class _ConvBlock(nn.Module):
         groups = cin if st['dw'] else 1
         self.prepad = None
         if dim == 1:
-            if pad == 'causal':
+            if pad in ('causal', 'causalv'):
+                # explicit left padding + an un-padded conv, spelled padding=0 or, as the PIT README writes it, padding='valid'
                 self.prepad = nn.ConstantPad1d(((k - 1) * d, 0), 0.0)
-                p = 0
+                p = 0 if pad == 'causal' else 'valid'
             elif pad == 'same':
                 p = 'same' if s == 1 else ((k - 1) * d) // 2
             elif pad == 'sym':
@@ -52,7 +53,7 @@ class _ConvBlock(nn.Module):
             else:
                 p = 0
             self.conv = nn.Conv1d(cin, cout, k, stride=s, padding=p, dilation=d, groups=groups, bias=st['bias'])
-            self.bn = nn.BatchNorm1d(cout) if st['bn'] else None
+            self.bn = nn.BatchNorm1d(cout, eps=st.get('bn_eps', 1e-5)) if st['bn'] else None
         else:
             if pad in ('same', 'causal'):
                 p = 'same' if s == 1 else ((k - 1) * d) // 2
@@ -61,7 +62,7 @@ class _ConvBlock(nn.Module):
             else:
                 p = 0
             self.conv = nn.Conv2d(cin, cout, k, stride=s, padding=p, dilation=d, groups=groups, bias=st['bias'])
-            self.bn = nn.BatchNorm2d(cout) if st['bn'] else None
+            self.bn = nn.BatchNorm2d(cout, eps=st.get('bn_eps', 1e-5)) if st['bn'] else None
         self.act = {'relu': nn.ReLU(), 'relu6': nn.ReLU6(), 'silu': nn.SiLU(), None: None, 'frelu': 'frelu'}[st['act']]
         self.cout = cout
 
@@ -153,7 +154,7 @@ class Net(nn.Module):
                 hid = h.get('hidden', 4)
                 self.head['fc1'] = nn.Linear(c, hid, bias=h.get('hbias', True))
                 if h.get('bn', True):
-                    self.head['bn'] = nn.BatchNorm1d(hid)
+                    self.head['bn'] = nn.BatchNorm1d(hid, eps=h.get('bn_eps', 1e-5))
                 self.head['relu'] = nn.ReLU()
                 self.head['fc'] = nn.Linear(hid, h.get('out', 3))
         elif self._hk == 'fcn':
@@ -400,10 +401,10 @@ def base_stages(dim):
 
 HEADS = [{'kind': 'flatlin'}, {'kind': 'gaplin'}, {'kind': 'fcn'}]
 
-CONV_OPTS = [{'bias': False}, {'bn': True}, {'bn': True, 'bias': False}, {'s': 2}, {'k': 5}, {'k': 1}, {'k': 4}, {'d': 2}, {'pad': 'sym'}, {'pad': 'same'},
+CONV_OPTS = [{'bias': False}, {'bn': True}, {'bn': True, 'bias': False}, {'bn': True, 'bn_eps': 0.05}, {'pad': 'causalv'}, {'pad': 'causalv', 'k': 5}, {'s': 2}, {'k': 5}, {'k': 1}, {'k': 4}, {'d': 2}, {'pad': 'sym'}, {'pad': 'same'},
              {'act': 'silu'}, {'act': 'frelu'}, {'act': None}, {'act': 'relu6'}, {'cout': 4}]
 HEAD_OPTS = {'flatlin': [{'flat': 'torch'}, {'flat': 'method'}, {'bias': False}, {'post': 'frelu'}, {'post': 'lsm'}],
-             'gaplin': [{'flat': 'torch'}, {'flat': 'method'}, {'flat': 'squeeze'}, {'bn': False}, {'hbias': False}, {'post': 'frelu'}],
+             'gaplin': [{'flat': 'torch'}, {'flat': 'method'}, {'flat': 'squeeze'}, {'bn': False}, {'hbias': False}, {'post': 'frelu'}, {'bn_eps': 0.05}],
              'fcn': [{'post': 'relu'}, {'post': 'gap'}, {'post': 'frelu'}, {'post': 'lsm'}],
              'fcnadd': [], 'flatadd': []}
 POOL_OPTS = [{'kind': 'avg'}, {'kind': 'adaptive'}]
@@ -460,8 +461,8 @@ def _valid(prog):
             return False
         if s['op'] == 'conv' and prog['dim'] == 2 and s.get('k', 3) == 4 and s.get('pad') in (None, 'same', 'causal') and s.get('s', 1) == 1:
             pass  # even kernels with 'same' padding are legal in torch (asymmetric padding)
-        if s['op'] == 'conv' and s.get('pad') == 'same' and prog['dim'] == 2:
-            return False  # identical to the 2D default
+        if s['op'] == 'conv' and s.get('pad') in ('same', 'causalv') and prog['dim'] == 2:
+            return False  # identical to the 2D default / 1D only
         if s['op'] == 'conv' and s.get('pad') == 'sym' and s.get('k', 3) % 2 == 0:
             return False  # would change the length by one: legal, but a different family
     return True
